@@ -489,6 +489,11 @@ def check(ctx, R):
     from . import wire_rules
     R.run("C20.k", rule_k, ctx)
     R.run("C20.l", rule_l, ctx)
+    from . import shared as _sh
+    R.run("C20.m", lambda R, c: _sh.api_delegations(
+        R, c, "C20.m", _sh.WEAK_DELEGATIONS,
+        "R-PROV dereferencing a text quotation as a string: WeakRef<TextRef>::get_string renders with LinkSource::to_string and "
+        "WeakRef<XmlTextRef>::get_string with to_xml_string, each over the link's own source"), ctx)
     R.run("C20.a", rule_a, ctx)
     R.run("C20.b", rule_b, ctx)
     R.run("C20.c", rule_c, ctx)
